@@ -307,8 +307,11 @@ def run_gs_twin(ctx, case):
     return results
 
 
-def gen_gs_twin(rng):
-    case = h.gen_gs_case(rng)
+def gen_gs_twin(rng, on_grid=False):
+    # on_grid: initial points taken from the grid, the continuation runs through the whole grid
+    case = h.gen_gs_on_grid_case(rng) if on_grid else h.gen_gs_case(rng)
+    if on_grid:
+        case["shuffle"] = rng.random() < 0.5
     n = len(case["ops"])
     case.update(kind="gs_twin", seeded=rng.random() < 0.6, pickle_state=rng.random() < 0.4,
                 order=rng.choice(["sequential", "interleaved"]),
@@ -361,6 +364,19 @@ def gen_gp_twin_silent(rng, kind):
                 cuts=[len(hist) - (k - 1), len(hist) - 1, len(hist)], max_suggest=len(hist) + len(cont),
                 metrics=[round(rng.uniform(0, 1), 3) for _ in range(20)], pickle_state=rng.random() < 0.3,
                 order="sequential", directed_history="trials_finish_before_first_rung_after_first_model_based_suggestion")
+
+
+def gen_gp_twin_many_pending(rng, kind):
+    """model-based phase with trials 8, 9, 10 pending at the snapshot (registration order 8, 9, 10; as strings
+    '10' < '8' < '9') and further suggestions while they are still pending (fantasies over the pending evaluations)"""
+    spec = [["x", "dom", ["uniform", 0.0, 1.0]], ["y", "dom", ["uniform", -1.0, 1.0]]]
+    hist = ["suggest", "complete"] * 8 + ["suggest"] * 3
+    cont = ["suggest", "suggest", ["complete", 8], "suggest"]
+    return dict(kind="gp_twin", sched=kind, spec=spec, pts=[], seed=rng.randrange(10 ** 6), num_init_random=3,
+                search_options=dict(opt_nstarts=1, opt_maxiter=5, initial_scoring=rng.choice(["thompson_indep", "acq_func"])),
+                ops=hist + cont, workers=8, cuts=[len(hist)], max_suggest=len(hist) + len(cont),
+                metrics=[round(rng.uniform(0, 1), 3) for _ in range(30)], pickle_state=rng.random() < 0.5,
+                order="sequential", directed_history="three_pending_trials_8_9_10_at_snapshot")
 
 
 def rng_state_equal(a, b):
@@ -693,6 +709,7 @@ def run(ctx, replay=None):
         cases = directed_cases()
         cases += [gen_rs_twin(rng) for _ in range(ctx.n(120, 1200))]
         cases += [gen_gs_twin(rng) for _ in range(ctx.n(100, 1000))]
+        cases += [gen_gs_twin(rng, on_grid=True) for _ in range(ctx.n(30, 200))]
         cases += [gen_gp_twin(rng) for _ in range(ctx.n(20, 100))]
         cases += [gen_gp_twin(rng, nearly_exhausted=True) for _ in range(ctx.n(6, 24))]
         # (HyperTuneSearcher inherits clone_from_state from GPMultiFidelitySearcher, which returns a plain
@@ -700,6 +717,8 @@ def run(ctx, replay=None):
         # not among the searchers the property lists for this facility; reported to the lead, not generated here)
         for kind in ("hb-stopping-bayesopt", "hb-promotion-bayesopt"):
             cases += [gen_gp_twin_silent(rng, kind) for _ in range(ctx.n(3, 12))]
+        for kind in ("fifo-bayesopt", "hb-stopping-bayesopt"):
+            cases += [gen_gp_twin_many_pending(rng, kind) for _ in range(ctx.n(3, 12))]
         for kind in ("fifo-bayesopt", "hb-stopping-bayesopt"):
             cases += [gen_dill_multiworker(rng, kind) for _ in range(ctx.n(3, 15))]
         for kind in ("hb-stopping-random", "hb-promotion-random", "hb-pasha-random"):
